@@ -141,6 +141,14 @@ func NewPositionRange(lines []string, val *yaml.Node, minColumn int) (offsets Po
 	}
 
 END:
+	if len(offsets) == 0 {
+		// The value couldn't be found in the source lines (escape sequences in a quoted string,
+		// line numbers that don't match our line splitting). Point at where the node starts so that
+		// every node has a position inside the file.
+		return PositionRanges{
+			{Line: max(min(val.Line, len(lines)), 1), FirstColumn: val.Column, LastColumn: val.Column},
+		}
+	}
 	return offsets
 }
 
